@@ -70,14 +70,20 @@ class Graph:
                         E[src].append(('L', d, [], 'mutref-back'))
                     continue
                 ops = rv.get('ops', [])
+                # aggregates assigned to a whole local define its field nodes one by one
+                split_agg = k == 'agg' and not dpl['p'] and not rv['adt'].startswith('closure:') and rv['adt'] != 'array' and len(ops) > 0
                 for i, o in enumerate(ops):
                     lab = k
+                    dd = d
                     if k == 'agg':
                         fl = rv['fields']
-                        lab = 'agg:%s:%s' % (rv['adt'], fl[i] if i < len(fl) else i)
+                        fname = fl[i] if i < len(fl) else str(i)
+                        lab = 'agg:%s:%s' % (rv['adt'], fname)
+                        if split_agg:
+                            dd = (dl, fname); self.field_nodes[dl].add(dd)
                     elif k == 'bin': lab = 'bin:' + rv['op']
                     elif k == 'un': lab = 'un:' + rv['op']
-                    self._add_op(d, o, lab)
+                    self._add_op(dd, o, lab)
                     # aliasing copies of &mut-like values: writes through the copy reach the source
                     if o['k'] in ('copy', 'move') and mutlike(T[dl]) and mutlike(T[o['pl']['l']]):
                         E[self._n(o['pl'])].append(('L', d, [], 'alias-back'))
